@@ -1086,6 +1086,9 @@ func genReq(r *rand.Rand, d *APIDesc, i int) ReqDesc {
 		rq.Accept, rq.Flavour = []mon.Q{"*/*"}, "star"
 	default:
 		fl := accept.PickFlavour(r)
+		if r.Intn(2) == 0 {
+			fl = accept.Plain // keep most requests on headers whose negotiation is judged even while C07's parser defects exist
+		}
 		rq.Accept = mon.QS(accept.GenHeader(r, fl, types).Render(accept.OWS(r)))
 		rq.Flavour = accept.FlavourNames[fl]
 	}
